@@ -173,7 +173,7 @@ def verus_property_run(prop, config, tag, tier):
     sel = sorted(set(mods + lemma_mods))
     if not sel:
         raise Undecided('no Verus module is tagged with %s' % prop)
-    res = run_verus(rs, sel, tag, rlimit=(100 if tier == 'thorough' else None))
+    res = run_verus(rs, sel, tag, rlimit=(200 if tier == 'thorough' else 40))
     js = res['json']
     if js is None:
         raise Undecided('verus produced no JSON (rc=%d): %s' % (res['rc'], res['stderr'][-1500:]))
